@@ -362,6 +362,11 @@ def _validated_write(ctx, pl: Pipeline, st: Stage, s: RowStore, unb_keys, carbon
                 val_idx = x.index
     if val_idx is None:
         return False, "no later validator pass recomputes both labels for every row"
+    # the validation is on every path from the rewriting stage to the end of the pipeline function: a handler that
+    # swallows a fault of a statement before it (or of the validation itself) leaves the labels of before the rewrite
+    skipped = _validation_skippable(pl, st, [x for x in later if x.index == val_idx][0])
+    if skipped:
+        return False, "the final validation (stage %d) can be skipped: %s" % (val_idx, skipped)
     for x in later:
         if x.index <= val_idx:
             continue
@@ -387,6 +392,32 @@ def _validated_write(ctx, pl: Pipeline, st: Stage, s: RowStore, unb_keys, carbon
         "the only later validator pass (stage %d) guards both promotion and revert with `not solved`, so an unbalanced replacement stays solved"
         % val_idx
     )
+
+
+def _validation_skippable(pl: Pipeline, st: Stage, val: Stage) -> Optional[str]:
+    """A path in the pipeline function from the rewriting stage to the normal exit that does not complete the validator
+    statement (exception edges into handlers that fall through included) -> description, else None."""
+    cfg = CFG(pl.func.node)
+    a, v = cfg.node_of(st.stmt), cfg.node_of(val.stmt)
+    if a is None or v is None:
+        return None  # stage inlined from a helper: the helper's statements are not nodes of this graph
+    seen, stack = set(), [a]
+    while stack:
+        x = stack.pop()
+        if x in seen:
+            continue
+        seen.add(x)
+        n = cfg.nodes[x]
+        if x == v:
+            # completed normally: fine; a fault of the validation itself caught by a handler goes on
+            stack.extend(y for y in n.succ if cfg.nodes[y].kind == "handler")
+            continue
+        if x == cfg.exit:
+            hs = [cfg.nodes[y] for y in seen if cfg.nodes[y].kind == "handler"]
+            at = ("the handler at line %d swallows a fault and the stage continues" % hs[0].ast.lineno) if hs else "a branch bypasses it"
+            return at
+        stack.extend(n.succ)
+    return None
 
 
 # ------------------------------------------------------------------------ R4
